@@ -1,3 +1,3 @@
 From Coq Require Import Extraction ExtrOcamlBasic.
 From MW Require Import Common.Str C03.Model C04.Model.
-Extraction "../ocaml/c04/c04_model.ml" evals compile_body impl_expand num_aware_eq trim.
+Extraction "../ocaml/c04/c04_model.ml" evals compile_body impl_expand compile_body_r impl_expand_r num_aware_eq trim.
